@@ -87,7 +87,7 @@ fn check_case(case: &Value, stats: &mut Stats) -> CheckResult {
 pub fn property() -> Property {
     Property {
         id: "C18",
-        rule: "Metamorphic: valid positions (17 sources) are mirrored top-to-bottom with colours, side, rights and mark swapped (always) and \
+        rule: "Metamorphic: valid positions (19 sources) are mirrored top-to-bottom with colours, side, rights and mark swapped (always) and \
                left-to-right (when no castling rights); the image must pass validation unchanged, and legal::gen_all, semilegal::gen_all, \
                legal::gen_capture of the image must equal the mapped move sets of the original; is_check, has_legal_moves, calc_outcome \
                (winner swapped), calc_draw_simple must agree. Non-trivial = position with pawns, rights or an ep mark; distinct by \
